@@ -21,6 +21,10 @@ import YarlProofs.C09Idn
   user: C09_headline_surrogate_user_agrees.)
   IDN hosts: `IdnaAnswerSane` / `IdnaSaneAt` / `IdnaSane` (C16Idn.lean) are the stated ASSUMPTION about the `idna` package
   under which the IDNA clause of the guard holds, see the section "IDN (non-ASCII) hosts".
+
+  Continued in C09HeadlineMore.lean (theorems that need a module which imports this file): C09Bracket.lean imports this
+  file, so the statements for BRACKETED hosts that are not IPv6 addresses (IPvFuture "[v1.a:b]", "[g::1]", "[a:b]";
+  GAPS 1, guard coverage) are there as `C09_headline_…_bracketed_host…`.
 -/
 set_option linter.unusedVariables false
 namespace Yarl
@@ -300,7 +304,18 @@ GAPS:
     GUARD COVERAGE as before for ASCII hosts: `GoodHost` is established from the input for ASCII host text without '['
     (C09_good_host_ascii — covers reg-names, IPv4, IPvFuture, bracketed junk with ':'), valid IPv6 with any zone
     (C09_good_host_ipv6_any_zone), the empty host with a written user / password / port
-    (C09_eager_eq_lazy_empty_host).  NEW for NON-ASCII (IDN) hosts: the clause "the IDNA answer is non-empty and
+    (C09_eager_eq_lazy_empty_host).  BRACKETED NON-IPv6 HOSTS (IPvFuture "[v1.a:b]", "[g::1]", "[a:b]",
+    "[1.2.3.4%a:b]"; since fix c17f18a their brackets are kept in the stored netloc) — were covered only implicitly by the
+    "ASCII, no '['" clause; now CLOSED explicitly by C09_bracket_good_authority, C09_bracket_pickle_lossless,
+    C09_bracket_eager_eq_lazy (C09Bracket.lean — that file IMPORTS this one, so the headline theorems are in the
+    companion file C09HeadlineMore.lean), see C09_headline_bracketed_host_in_guard, C09_headline_restored_bracketed_host,
+    C09_headline_eager_eq_lazy_bracketed_host: every Python-string input whose host text is a bracketed non-IPv6 text IN
+    ANY LETTER CASE (`BracketTextIn`) is inside `GoodAuthority`, all netloc-dependent accessors, the string form, `==` and
+    the hash key of the restored URL agree, and for the canonical strings `scheme://[user[:pw]@][t][:port]…` (any port,
+    the default one included) the cached `raw_host = t`, port, user, password are exactly what the restored URL derives.
+    Only "ASCII" and "no '[' inside" of `BracketTextIn` are used — so even the inputs whose string form cannot be parsed
+    again ("[V:b]", a further member of F-C03-bracket, C03Headline.lean GAPS 2) pickle losslessly; nothing remains open
+    for this family in C09.  NEW for NON-ASCII (IDN) hosts: the clause "the IDNA answer is non-empty and
     introduces none of ':' '@' '[' ']'" is now DERIVED from the single assumption `IdnaSaneAt e.o h0` ("every answer
     of the `idna` package / of the lower-cased stdlib fallback for this host is non-empty lower-case reg-name text",
     stated once in C16Idn.lean), for any authority shape (userinfo, port), and end to end from the input text for
